@@ -56,6 +56,18 @@ check("C12",
       "TLA+ spec (QLoss over exact rationals) model-checked with TLC; replay of TLC-emitted exact loss quantities into four loss implementations",
       "DESIGN.md §4 C12")
 
+check("C06",
+      "TLC (MC_C06 over QAlgebra) builds every type-valid time-ordered chain up to length 4 (5 thorough) over an exact catalogue of states, gates, measurement processes with 2/3/4 outcomes and POVMs with 2/3/4 outcomes (non-commuting) and checks in every state that EVERY bracketing of the chain gives the value of the sequential application (associativity of the specification's binary Compose on channel-like / state-like / POVM-like / distribution segments), that results are normalised and non-negative, that the outcome shape lists the measuring items in time order, that a measurement process on a state has the statistics of its induced POVM, and that POVM -> measurement process (three back-action modes) induces the POVM back. Binding: every chain is rebuilt from the emitted H-coordinates as real physical objects and every bracketing is evaluated through nested compose_qoperations (plus the n-ary fold and Experiment.calc_prob_dist); results must equal the specification's value in the same serial order with a compatible shape, be physical, and ensembles must index states and probabilities alike.",
+      "Trusted: QObjects catalogue and QAlgebra!Compose as the reading of the property; 1-qubit catalogue + multilinearity; a result that merges adjacent outcome axes is accepted.",
+      "TLA+ spec (QAlgebra over exact rationals) model-checked with TLC (all bracketings); replay of every chain x bracketing into compose_qoperations",
+      "DESIGN.md §4 C06")
+
+check("C19",
+      "TLC (MC_C19 over QStats): for every configuration, true object of the physical catalogue and sample-size list, exact multinomial expectations obtained by complete enumeration of count vectors equal the analytic formulas on the specification: normalisation, mean, covariance, MSE of the empirical distributions, MSE of the linear estimate in library coordinates (per-schedule expectation of |P_s(f_s - p_s)|^2 with the exact rational pseudo-inverse), object-mode MSE >= variable-mode MSE with equality iff nothing is implied, 1/N scaling. Binding: calc_covariance_mat_single/_total, calc_covariance_linear_mat_total, calc_mse_linear_analytical (both modes), calc_mse_empi_dists_analytical, calc_fisher_matrix(_total), calc_cramer_rao_bound and the sample-statistics helpers must reproduce the exact values.",
+      "Trusted: QStats definitions; enumeration up to 4 samples per schedule (larger sizes through verified 1/N scaling); tester sets whose exact pseudo-inverse fits 32-bit rationals.",
+      "TLA+ spec (QStats/QTomo, complete multinomial enumeration) model-checked with TLC; replay of TLC-emitted exact moments into the implementation",
+      "DESIGN.md §4 C19")
+
 ALL = ["C%02d" % i for i in range(1, 21)]
 
 def main():
